@@ -25,6 +25,7 @@ RULE = (
 )
 ASSUMPTIONS = ["relative tolerance 1e-9 on fitness values (numba kernels, summation order)", "synchronous dask scheduler"]
 SHARDS = {"quick": 8, "thorough": 16}
+SHRINK = "none"  # the fields of a case constrain each other (ranges vs shapes vs readouts): a shrunk case would change meaning
 FITNESS = {"abs": "pyxel.calibration.fitness.sum_of_abs_residuals", "squared": "pyxel.calibration.fitness.sum_of_squared_residuals",
            "chi2": "pyxel.calibration.fitness.reduced_chi_squared"}
 RANGE_CLASSES = ("default", "full", "equal_sub", "equal_sub", "shifted", "shifted", "unequal_same_end", "unequal_diff_end", "exceeds_target")
@@ -61,13 +62,30 @@ def cases(draw, time_domain=None):
         tfr, rfr = [0, min(h + 1, rows), 0, w], [0, h, 0, w]
     else:  # exceeds_target
         tfr, rfr = [0, rows + 2, 0, cols], [0, rows + 2, 0, cols]
+    frames = steps
+    time_class = "same_frames"
+    if td:
+        frames = draw(st.sampled_from([steps, steps, steps, steps + 1, steps + 2, max(1, steps - 1)]))
     if td and draw(st.booleans()) and tfr is not None:
-        t1 = draw(st.integers(1, steps))
+        lim = min(steps, frames)
+        t1 = draw(st.integers(1, lim))
         t0 = draw(st.integers(0, t1 - 1))
-        tfr, rfr = [t0, t1, *tfr], [t0, t1, *rfr]
+        tt0, tt1 = t0, t1
+        if frames != steps:
+            time_class = draw(st.sampled_from(["within_both", "within_both", "beyond_target_frames", "shifted_in_time"]))
+            if time_class == "beyond_target_frames":
+                tt0, tt1 = 0, frames + 1          # stop beyond the cube (may still be <= number of readouts)
+                t0, t1 = 0, min(frames + 1, steps)
+            elif time_class == "shifted_in_time" and frames > t1:
+                tt0, tt1 = t0 + (frames - lim if frames > lim else 0), t1 + (frames - lim if frames > lim else 0)
+        else:
+            time_class = "within_both"
+        tfr, rfr = [tt0, tt1, *tfr], [t0, t1, *rfr]
+    elif td and frames != steps:
+        time_class = "implicit_time_extent_differs"
     weights = draw(st.sampled_from(["none", "none", "scalars", "files"]))
     fit = draw(st.sampled_from(sorted(FITNESS)))
-    return {"shape": [rows, cols], "steps": steps, "time_domain": td, "n_targets": n_t, "range_class": cls, "target_fit_range": tfr, "result_fit_range": rfr,
+    return {"frames": frames, "time_class": time_class, "shape": [rows, cols], "steps": steps, "time_domain": td, "n_targets": n_t, "range_class": cls, "target_fit_range": tfr, "result_fit_range": rfr,
             "weights": weights, "weight_values": [draw(st.sampled_from([0.5, 1.0, 2.0, 3.5])) for _ in range(n_t)], "fitness": fit,
             "target_seed": draw(st.integers(0, 10**6)), "offsets": [draw(st.sampled_from([0.0, 5.0, -3.0, 11.5])) for _ in range(n_t)],
             "fmt": draw(st.sampled_from(["npy", "npy", "fits", "txt"])) if not td else "npy",
@@ -93,7 +111,7 @@ def _write(path, arr, fmt):
 def _targets(case, tmp):
     rows, cols = case["shape"]
     rng = np.random.RandomState(case["target_seed"])
-    shape = (case["steps"], rows, cols) if case["time_domain"] else (rows, cols)
+    shape = (case.get("frames", case["steps"]), rows, cols) if case["time_domain"] else (rows, cols)
     paths, arrays, wpaths, warrays = [], [], [], []
     for k in range(case["n_targets"]):
         a = rng.uniform(0.0, 60.0, size=shape).round(3)
@@ -198,6 +216,8 @@ def _expectation(case):
     cls = case["range_class"]
     if cls in ("unequal_same_end", "unequal_diff_end", "exceeds_target"):
         return "reject"
+    if case.get("time_class") in ("beyond_target_frames", "implicit_time_extent_differs"):
+        return "reject"  # the time range exceeds the cube, or all frames vs all readouts are of different extent
     return "accept"
 
 
@@ -207,7 +227,7 @@ def _degenerate_chi2(case):
         return False
     rows, cols = case["shape"]
     ts, tr, tc = _slices(case["target_fit_range"], case["steps"], case["time_domain"])
-    n = len(range(*ts.indices(case["steps"]))) * len(range(*tr.indices(rows))) * len(range(*tc.indices(cols)))
+    n = len(range(*ts.indices(case.get("frames", case["steps"])))) * len(range(*tr.indices(rows))) * len(range(*tc.indices(cols)))
     return n <= 5
 
 
@@ -220,7 +240,8 @@ def body_problem(case, rec):
         case = dict(case, fitness="squared")
     exp = _expectation(case)
     rec.cls(f"range:{case['range_class']}", f"weights:{case['weights']}", f"fitness:{case['fitness']}", "time_domain" if case["time_domain"] else "single_readout",
-            f"targets:{case['n_targets']}", f"ranges:{'none' if case['target_fit_range'] is None else len(case['target_fit_range'])}")
+            f"targets:{case['n_targets']}", f"ranges:{'none' if case['target_fit_range'] is None else len(case['target_fit_range'])}",
+            f"time:{case.get('time_class', 'same_frames')}")
     rec.nt(case["range_class"] in ("equal_sub", "shifted") or case["n_targets"] >= 2 or case["weights"] != "none")
     spec, targets, warrays = _spec(case, rec.tmp)
     problem, raised = None, None
@@ -233,7 +254,8 @@ def body_problem(case, rec):
         ok = raised is not None
         if raised is None:
             # rejected at the latest before the first evaluation: nothing may have been evaluated, and evaluating must not "work"
-            rec.fail(f"invalid_fit_ranges_accepted:{case['range_class']}", f"target {case['target_fit_range']} result {case['result_fit_range']} (detector {case['shape']}) was accepted")
+            rec.fail(f"invalid_fit_ranges_accepted:{case['range_class']}:{case.get('time_class')}",
+                     f"target {case['target_fit_range']} result {case['result_fit_range']} (detector {case['shape']}, {case['steps']} readouts, target cube of {case.get('frames')} frames) was accepted")
         rec.check(not P.CAL_LOG, "pipeline_ran_before_rejection", f"{len(P.CAL_LOG)} evaluations")
         return
     if not rec.check(raised is None, f"valid_fit_ranges_refused:{case['range_class']}",
@@ -259,6 +281,15 @@ def run_cases(draw):
     c = draw(cases())
     if _expectation(c) == "reject":
         c["range_class"], c["target_fit_range"], c["result_fit_range"] = "full", [0, c["shape"][0], 0, c["shape"][1]], [0, c["shape"][0], 0, c["shape"][1]]
+        c["frames"], c["time_class"] = c["steps"], "same_frames"
+    if c.get("frames", c["steps"]) != c["steps"]:
+        # known finding K5 (result assembly fails when the target cube has another number of frames): excluded here, probed separately
+        c["frames"], c["time_class"] = c["steps"], "same_frames"
+        if c["target_fit_range"] is not None and len(c["target_fit_range"]) == 6:
+            t1 = min(c["target_fit_range"][1], c["steps"])
+            t0 = min(c["target_fit_range"][0], t1 - 1)
+            c["target_fit_range"][0:2] = [t0, t1]
+            c["result_fit_range"][0:2] = [t0, t1]
     c["islands"] = draw(st.integers(1, 2))
     c["evolutions"] = draw(st.integers(1, 3))
     c["pygmo_seed"] = draw(st.integers(0, 100000))
@@ -307,7 +338,19 @@ def body_run(case, rec):
                 rec.check(ok, f"returned_simulated_data_differs[{name.split('/')[1]}]", f"{name} island {isl} target {k}: shape {g.shape} vs {want.shape}; {g.ravel()[:3]} vs {want.ravel()[:3]}")
 
 
-PARTS = {"problem": body_problem, "run": body_run}
+def k5_cases():
+    return [{"frames": 3, "time_class": "within_both", "shape": [4, 3], "steps": 2, "time_domain": True, "n_targets": 1, "range_class": "full",
+             "target_fit_range": [0, 2, 0, 4, 0, 3], "result_fit_range": [0, 2, 0, 4, 0, 3], "weights": "none", "weight_values": [1.0], "fitness": "abs",
+             "target_seed": 3, "offsets": [0.0], "fmt": "npy", "result_type": "pixel", "fractions": [[0.5, 0.5, 0.5]], "islands": 1, "evolutions": 1, "pygmo_seed": 7}]
+
+
+PARTS = {"problem": body_problem, "run": body_run, "k5_target_cube_with_other_frame_count": body_run}
+
+
+def known_key(part, clause, case, detail):
+    if part == "k5_target_cube_with_other_frame_count" and case.get("frames") != case.get("steps") and clause.startswith("valid_calibration_failed"):
+        return "K5-target-cube-frames-differ-from-readouts"
+    return None
 
 
 def plan(tier):
@@ -315,4 +358,5 @@ def plan(tier):
     return [
         Part(name="problem", kind="gen", strategy=cases, examples=120 if q else 1000),
         Part(name="run", kind="gen", strategy=run_cases, examples=8 if q else 60),
+        Part(name="k5_target_cube_with_other_frame_count", kind="enum", cases=k5_cases, shards=1),
     ]
